@@ -214,6 +214,7 @@ def clone_val(v, memo):
     if isinstance(v, SObj):
         r = SObj(v.cls, None, v.tag)
         r.oid = v.oid
+        r.partial = getattr(v, "partial", False)
         memo[k] = (r, v)
         r.fields = clone_val(v.fields, memo)
         return r
@@ -931,6 +932,9 @@ class Exec:
                     return self.eval_class_attr(ca, st)
             if name == "__class__":
                 return [(st, v.cls)]
+            if getattr(v, "partial", False):
+                from .values import UnknownAttr
+                return [(st, UnknownAttr("%s.%s" % (getattr(v.cls, "name", v.cls), name)))]
             raise AttrMissing(v, name)
         if isinstance(v, ClassRef):
             fr = extract.find_method(v.module, v.node, name)
@@ -1984,15 +1988,47 @@ class Exec:
     def exec_Try(self, stmt, st):
         """try: A except cp.error.SolverError: B  -- modelled as a nondeterministic choice between
         A and B (both are solver calls under the same assumed solver contract)."""
-        if stmt.finalbody or stmt.orelse or len(stmt.handlers) != 1:
-            raise Unsupported("try statement shape")
-        h = stmt.handlers[0]
-        hname = ast.unparse(h.type) if h.type is not None else ""
-        if not hname.endswith("SolverError"):
-            raise Unsupported("except " + hname)
-        st2 = st.clone()
-        out = self.exec_block(stmt.body, st)
-        out.extend(self.exec_block(h.body, st2))
+        if stmt.finalbody:
+            raise Unsupported("try ... finally")
+        names = [ast.unparse(h.type) if h.type is not None else "" for h in stmt.handlers]
+        if len(stmt.handlers) == 1 and names[0].endswith("SolverError") and not stmt.orelse:
+            h = stmt.handlers[0]
+            st2 = st.clone()
+            out = self.exec_block(stmt.body, st)
+            out.extend(self.exec_block(h.body, st2))
+            return out
+        if any(n.endswith("SolverError") for n in names):
+            raise Unsupported("except SolverError combined with other handlers")
+        # general form: EXPLICIT raises of the body (raise statements, failed asserts) are routed to the first matching handler;
+        # implicit errors (index, shape, domain) stay proof obligations of the body - a handler that exists only to catch those
+        # is unreachable whenever the obligations hold
+        def matches(h, exc_name):
+            if h.type is None:
+                return True
+            tys = h.type.elts if isinstance(h.type, ast.Tuple) else [h.type]
+            for ty in tys:
+                tn = ast.unparse(ty).split(".")[-1]
+                if tn in ("Exception", "BaseException") or tn == exc_name:
+                    return True
+                if tn == "ArithmeticError" and exc_name in ("ZeroDivisionError", "OverflowError", "FloatingPointError"):
+                    return True
+                if tn == "LookupError" and exc_name in ("IndexError", "KeyError"):
+                    return True
+            return False
+        out = []
+        for s, o in self.exec_block(stmt.body, st):
+            if isinstance(o, tuple) and o and o[0] == "raise":
+                hit = next((h for h in stmt.handlers if matches(h, o[1])), None)
+                if hit is None:
+                    out.append((s, o))
+                    continue
+                if hit.name:
+                    s.frame.locals[hit.name] = ExcValue(o[1], o[2] if len(o) > 2 else None)
+                out.extend(self.exec_block(hit.body, s))
+            elif o is NORMAL and stmt.orelse:
+                out.extend(self.exec_block(stmt.orelse, s))
+            else:
+                out.append((s, o))
         return out
 
     def exec_While(self, stmt, st):
@@ -2214,6 +2250,7 @@ def _merge_val(ex, c, a, b, memo):
     if isinstance(a, SObj) and isinstance(b, SObj) and a.oid == b.oid:
         r = SObj(a.cls, None, a.tag)
         r.oid = a.oid
+        r.partial = getattr(a, "partial", False) or getattr(b, "partial", False)
         memo[k] = r
         if a.fields.keys() != b.fields.keys():
             raise Unsupported("merge of objects with different fields")
